@@ -150,6 +150,13 @@ Theorem C08_parse_units_step c cs ad many nr acc n v l :
            end
   end.
 Proof. exact (pu_fold_step c cs ad many nr acc n v l). Qed.
+(** a unit string read without per-call arguments — [parse_units], [Unit(…)], and every string that
+    enters on the conversion side ([get_root_units], [convert], [Quantity.to], … through
+    [to_units_container]) — is read with the REGISTRY's settings, whatever they are *)
+Theorem C08_registry_settings_apply nr c text toks :
+  parse_units_st nr c text toks None None
+  = parse_units_st nr c text toks (Some (c_delta c)) (Some (c_case c)).
+Proof. reflexivity. Qed.
 Theorem C08_contains_spec nr c text toks :
   snd (n_contains nr c text toks) =
   match snd (n_getattr nr c text toks) with
